@@ -44,6 +44,11 @@ SHAPES = OrderedDict(
         ("p2_plain_then_d", ("Summary line", [("a", "str", P, ABSENT), ("b", "int", "the b", D)], None)),
         ("p2_both_d", ("Summary line", [("a", "int", P, D), ("b", "str", "the b", "x")], None)),
         ("p2_noprose", ("Summary line", [("a", "int", None, D), ("b", "str", P, ABSENT)], None)),
+        ("p2_plain_then_noprose", ("Summary line", [("a", "str", P, ABSENT), ("b", "int", None, ABSENT)], None)),
+        ("p3_two_noprose", ("Summary line", [("a", "str", P, ABSENT), ("width", "int", None, ABSENT), ("height", "int", None, ABSENT), ("depth", "int", None, ABSENT)], None)),
+        ("p1_code2", ("Summary line", [("a", "np.ndarray", P, "```(np.ones(3) * 2).astype(int)```")], None)),
+        ("p1_int_code", ("Summary line", [("a", "int", P, "```2 ** 5```")], None)),
+        ("p1_ret_code_scalar", ("Summary line", [("a", "int", P, D)], ("float", "the result", "```a + 0.5```"))),
         ("p1_ret", ("Summary line", [("a", "int", P, ABSENT)], ("bool", "the result", ABSENT))),
         ("p1_ret_d", ("Summary line", [("a", "int", P, D)], ("Tuple[int, int]", "the result", "```(a, a)```"))),
         ("p0", ("Summary line", [], None)),
@@ -124,8 +129,12 @@ def emit_kind(ir, kind, opts=None):
         return emit.class_(ir, class_name="K", word_wrap=o.get("word_wrap", False),
                            emit_default_doc=o.get("emit_default_doc", True))
     if kind in ("function", "method"):
+        ft = "static" if kind == "function" else o.get("ftype", "self")
+        if o.get("ftype_from_ir"):
+            ir["type"] = ft  # the documented Optional form: function_type=None means "take it from the description"
+            ft = None
         return emit.function(
-            ir, function_name="f", function_type="static" if kind == "function" else o.get("ftype", "self"),
+            ir, function_name="f", function_type=ft,
             word_wrap=o.get("word_wrap", False), emit_default_doc=o.get("emit_default_doc", True),
             indent_level=o.get("indent_level", 1), emit_separating_tab=o.get("sep_tab", True),
             inline_types=o.get("inline_types", True), emit_as_kwonlyargs=o.get("kwonly", False),
@@ -170,7 +179,12 @@ def same_default(got, want):
         return False
     if isinstance(want, str) and len(want) > 6 and want.startswith("```") and want.endswith("```"):
         # I5: back-tick quoting marks a code expression and is presentation only: ```X``` and X are the same expression
-        return got.strip("`") == want.strip("`")
+        if got.strip("`") == want.strip("`"):
+            return True
+        try:  # ... and modulo redundant outer parentheses (paren_wrap_code mirrors the built-in unparser): same expression tree
+            return ast.dump(ast.parse(got.strip("`"), mode="eval")) == ast.dump(ast.parse(want.strip("`"), mode="eval"))
+        except SyntaxError:
+            return False
     return got == want
 
 
